@@ -34,6 +34,31 @@ pub fn install_quiet_panic_hook() {
     }));
 }
 
+/// for fuzz targets: install the hook on the first call only (libFuzzer's own abort-on-panic hook
+/// is replaced, the oracle's panic!() at the end of the target still aborts through the default path)
+pub fn install_quiet_panic_hook_once() {
+    static ONCE: std::sync::Once = std::sync::Once::new();
+    ONCE.call_once(|| {
+        let default = std::panic::take_hook();
+        std::panic::set_hook(Box::new(move |info| {
+            let msg = if let Some(s) = info.payload().downcast_ref::<&str>() {
+                s.to_string()
+            } else if let Some(s) = info.payload().downcast_ref::<String>() {
+                s.clone()
+            } else {
+                String::new()
+            };
+            if msg.starts_with("VERIF-FAIL") {
+                // the oracle's verdict: let libFuzzer's hook print it and abort
+                default(info);
+            } else {
+                let loc = info.location().map(|l| format!("{}:{}", l.file().rsplit('/').next().unwrap_or(""), l.line())).unwrap_or_default();
+                LAST_PANIC_LOC.with(|l| *l.borrow_mut() = format!("{loc} {msg}"));
+            }
+        }));
+    });
+}
+
 pub fn last_panic() -> String {
     LAST_PANIC_LOC.with(|l| l.borrow().clone())
 }
